@@ -90,10 +90,8 @@ func (w *WebsocketConnection) run() {
 // writePump pumps messages from the SPINE and SHIP writeChannels to the websocket connection
 func (w *WebsocketConnection) writeShipPump() {
 	ticker := time.NewTicker(pingPeriod)
-	defer func() {
-		ticker.Stop()
-		close(w.shipWriteChannel)
-	}()
+	// the write channel is never closed, as writers may still be sending to it
+	defer ticker.Stop()
 
 	for {
 		select {
@@ -257,8 +255,13 @@ func (w *WebsocketConnection) WriteMessageToWebsocketConnection(message []byte) 
 		return errors.New(connIsClosedError)
 	}
 
-	w.shipWriteChannel <- message
-	return nil
+	// do not block forever if the write pump is gone
+	select {
+	case w.shipWriteChannel <- message:
+		return nil
+	case <-w.closeChannel:
+		return errors.New(connIsClosedError)
+	}
 }
 
 // make sure websocket Write is only called once at a time
